@@ -1467,4 +1467,56 @@ def reqInt8 : Req :=
     weightData := 9, scaleData := 10 }
 def reqInt16 : Req := { reqInt8 with ifmBits := 16, scaleValueId := 7, scaleData := 11 }
 
+theorem slice_key_iff (q : SReq) (hv : ValidReq q) (s t : Nat × Nat × Nat) (hs : s ∈ slices q.offsets)
+    (ht : t ∈ slices q.offsets) : (t.2.1 = s.2.1 ↔ t.1 = s.1) := by
+  obtain ⟨_, _, _, _, _, hsorted⟩ := hv
+  cases hq : q.offsets with
+  | nil => rw [hq] at hs; simp [slices, slicesFrom] at hs
+  | cons a tl =>
+    rw [hq] at hs ht hsorted
+    obtain ⟨hp1, hp2, _⟩ := slicesFrom_props a tl 0 hsorted
+    have h1 := hp1 s hs
+    have h2 := hp1 t ht
+    rcases pairwise_mem_cases hp2 t s ht hs with h | h | h
+    · subst h; simp
+    · constructor <;> intro hx <;> omega
+    · constructor <;> intro hx <;> omega
+
+theorem dmaBytes_map (rs : List Range) : dmaBytes (rs.map toARange) = dmaSum rs := by
+  unfold dmaBytes dmaSum
+  rw [List.map_map]
+  rfl
+
+theorem dbs_ok (c : Cfg) (offsets : List Nat) (out : Out) (hv : ValidReq (reqOf c offsets))
+    (hf : TensorFacts c offsets out) : DbsOk (reqOf c offsets) (rawArtefactOf c out) := by
+  have hv' := hv
+  obtain ⟨_, hb, _, _, _, _⟩ := hv
+  intro s hs
+  have hall := made_expected c offsets out hb hf
+  have hfil : sliceRanges (rawArtefactOf c out) s.2.1 = (out.rawRanges.filter (fun r => r.slice = s.1)).map toARange := by
+    unfold sliceRanges rawArtefactOf
+    simp only
+    rw [List.filter_map]
+    congr 1
+    apply List.filter_congr
+    intro r hr
+    obtain ⟨e, he, hm⟩ := hall.exists_left r hr
+    obtain ⟨hsl, _⟩ := mem_expected _ _ he
+    have := slice_key_iff _ hv' s (e.slice, e.off, e.len) hs hsl
+    have hd := hm.hdepth
+    have hsl2 := hm.hslice
+    simp only [Function.comp, toARange]
+    simp only at this
+    by_cases hx : r.depth = s.2.1
+    · have : r.slice = s.1 := by rw [hsl2]; exact this.1 (by rw [← hd]; exact hx)
+      simp [hx, this]
+    · have : ¬ r.slice = s.1 := fun h => hx (by rw [hd]; exact this.2 (by rw [← hsl2]; exact h))
+      simp [hx, this]
+  rw [hfil, dmaBytes_map]
+  have := hf.dbs s.1
+  unfold dbsOf rawArtefactOf
+  unfold getDbs at this
+  exact this
+
+
 end VelaVerif.WeightLayout
